@@ -20,13 +20,13 @@ From RT Require Import Model.StackTrace Model.StackProto Proofs.StackInvProofs P
 Import ListNotations.
 
 Theorem C09_stale_gc : forall size_oracle attempts tabs scripts sched,
-  init_ok tabs -> Forall (fun s => forallb modelled s = true) scripts -> (1 <= attempts)%nat ->
+  init_ok tabs -> (1 <= attempts)%nat ->
   c09_ok_gc (trace_of size_oracle attempts tabs scripts sched) = true.
 Proof. exact c09_gc_all_traces. Qed.
 Print Assumptions C09_stale_gc.
 
 Theorem C09_stale_strict : forall size_oracle attempts tabs scripts sched,
-  init_ok tabs -> Forall (fun s => forallb modelled s = true) scripts -> (1 <= attempts)%nat ->
+  init_ok tabs -> (1 <= attempts)%nat ->
   c09_precond (trace_of size_oracle attempts tabs scripts sched) = true ->
   c09_ok (trace_of size_oracle attempts tabs scripts sched) = true.
 Proof. exact c09_all_traces. Qed.
